@@ -149,6 +149,41 @@ static int family_lanes(void)
         return 0;
 }
 
+/* every byte value as the first, second and third byte of a line, and between two lines (flow-control and other control
+ * bytes, high bytes): a line is a line from its first non-CR/LF byte on; busy / idle is probed after every call */
+static int family_firstbyte(void)
+{
+        int idx = 0;
+        for (int layout = 0; layout < 3; layout++, idx++) {
+                if (idx % SW.nshards != SW.shard) continue;
+                struct wcmd *c = sw_table(3);
+                strcpy(c[0].name, "A"); c[0].hmask = HM_U | HM_R | HM_T;
+                strcpy(c[1].name, "+B"); c[1].hmask = HM_U | HM_W; c[1].nvar = 1;
+                c[1].var[0] = (struct wvar){.type = CAT_VAR_UINT_DEC, .size = 1, .access = CAT_VAR_ACCESS_READ_WRITE};
+                strcpy(c[2].name, "D"); c[2].hmask = HM_W; c[2].implicit = 1;
+                sw_caps(8, layout);
+                W.line_max = 40; W.mon = P_ALL;
+                world_build();
+                snprintf(SW.extra, sizeof SW.extra, "family=firstbyte layout=%d", layout);
+                static const char *REST[8] = {"ATA\n", "AT+B=7\r\n", "ATD1\n", "\n", "ATA?\r\n", "AT+B=?\r\n", "AT+B?\n", "ATA=?\n"};
+                for (int b = 0; b < 256; b++)
+                        for (int pos = 0; pos < 10; pos++)
+                                for (int r = 0; r < 8; r++) {
+                                        uint8_t line[32]; int n = 0;
+                                        const char *rest = REST[r];
+                                        int rl = (int)strlen(rest);
+                                        if (pos > rl) continue;
+                                        memcpy(line, rest, (size_t)pos); n = pos;
+                                        line[n++] = (uint8_t)b;
+                                        memcpy(line + n, rest + pos, (size_t)(rl - pos)); n += rl - pos;
+                                        memcpy(line + n, "ATA?\n", 5); n += 5;      /* a second line shows where the first one ended */
+                                        SW.cases++;
+                                        if (sw_line(line, n)) return 1;
+                                }
+        }
+        return 0;
+}
+
 /* crowds: K commands sharing one prefix (counters of candidates and table indices narrower than size_t), then one outsider */
 static int family_crowd(int big)
 {
@@ -191,6 +226,7 @@ int main(int argc, char **argv)
         const char *fam = sw_args(argc, argv, "--family", "small");
         if (!strcmp(fam, "small")) family_small(sw_argi(argc, argv, "--maxk", 3));
         else if (!strcmp(fam, "alphabet")) family_alphabet();
+        else if (!strcmp(fam, "firstbyte")) family_firstbyte();
         else if (!strcmp(fam, "crowd")) family_crowd(sw_argi(argc, argv, "--big", 1));
         else family_lanes();
         char tag[64];
